@@ -18,6 +18,7 @@ import Liftbridge.Driver.MetadataDrv
 import Liftbridge.Driver.RecoverDrv
 import Liftbridge.Driver.ProtoDrv
 import Liftbridge.Driver.CodecDrv
+import Liftbridge.Driver.CursorsDrv
 
 namespace Liftbridge.Driver
 open Liftbridge
@@ -31,6 +32,7 @@ structure St where
   metadata : MetaSt := {}
   recov : RecSt := {}
   proto : ProtoSt := {}
+  cursors : CursorsSt := {}
 
 def showRes {α} (f : α → String) : Res α → String
   | .ok a => "ok " ++ f a
@@ -67,6 +69,7 @@ def step (st : St) (line : String) : St × String :=
   | "c19" :: rest => (st, c19 rest)
   | "c15" :: rest => (st, c15Step rest)
   | "c17" :: rest => (st, c17 rest)
+  | "c11" :: rest => let (c, out) := cursorsStep st.cursors rest; ({ st with cursors := c }, out)
   | "codec" :: rest => (st, codecStep rest)
   | "proto" :: rest => let (p, out) := protoStep st.proto rest; ({ st with proto := p }, out)
   | "c05" :: rest => let (r, out) := recStep st.recov rest; ({ st with recov := r }, out)
